@@ -460,7 +460,7 @@ class C09(ModelCheck):
     assumptions = ["'no longer referenced' is judged after a forced garbage collection", "Home Assistant's bus and service registry are trusted"]
 
     def n_random(self, tier):
-        return {"quick": 480, "thorough": 16000}[tier]
+        return {"quick": 480, "thorough": 6400}[tier]
 
     def gen(self, R):
         return gen(R)
